@@ -52,10 +52,25 @@ def _outcome(e):
     return "error:" + type(e).__name__
 
 
+class _NoLimit:
+    def __enter__(self):
+        return self
+
+    def __exit__(self, *a):
+        return False
+
+
+BATCH_GUARD = [False]     # True while a batch-level alarm is armed: the per-call alarms are then skipped
+
+
+def _limit(seconds):
+    return _NoLimit() if BATCH_GUARD[0] else G.time_limit(seconds)
+
+
 def impl_rlencode(arr, c):
     from cooler.util import rlencode
     try:
-        with G.time_limit(20):
+        with _limit(20):
             s, l, v = rlencode(np.asarray(arr, dtype=np.int64), c)
         return ([int(x) for x in s], [int(x) for x in l], [int(x) for x in v])
     except G.Timeout:
@@ -67,7 +82,7 @@ def impl_rlencode(arr, c):
 def impl_index_pixels(arr, n, nnz):
     from cooler.create._create import index_pixels
     try:
-        with G.time_limit(20):
+        with _limit(20):
             r = index_pixels({"bin1_id": np.asarray(arr, dtype=np.int64)}, n, nnz)
         return [int(x) for x in r]
     except G.Timeout:
@@ -79,7 +94,7 @@ def impl_index_pixels(arr, n, nnz):
 def impl_index_bins(arr, n, total):
     from cooler.create._create import index_bins
     try:
-        with G.time_limit(20):
+        with _limit(20):
             r = index_bins({"chrom": np.asarray(arr, dtype=np.int64)}, n, total)
         return [int(x) for x in r]
     except G.Timeout:
@@ -193,22 +208,38 @@ def small_hash(res):
 def fn_level(ctx):
     thorough = ctx.tier == "thorough"
     rng = ctx.rng
-    arrays = []
-    for L in range(0, 8):
-        arrays += [list(a) for a in itertools.product(range(4), repeat=L)]
-    # the model enumerates the same arrays itself (itertools.product order: first position slowest)
-    groups = [(f"all_arrays {L}", 4 ** L) for L in range(0, 7)] + [(f"map (cons {v}) (all_arrays 6)", 4 ** 6) for v in range(4)]
-    exprs = [f"map (fun b => hz (map obs b)) (batches {SMALL_BATCH} {n} ({g}))" for g, n in groups]
+    # the model enumerates the same arrays itself (itertools.product order: first position slowest); the scope is
+    # cut into groups of <= 1024 arrays (fixed leading elements), largest first, so that the 4 coqc workers stay busy
+    def prod(prefix, L):
+        return [list(prefix) + list(a) for a in itertools.product(range(4), repeat=L)]
+    groups = [(f"all_arrays {L}", prod((), L)) for L in range(0, 6)]
+    groups += [(f"map (cons {a}) (all_arrays 5)", prod((a,), 5)) for a in range(4)]
+    groups += [(f"map (cons {a}) (map (cons {b}) (all_arrays 5))", prod((a, b), 5)) for a in range(4) for b in range(4)]
+    groups.sort(key=lambda g: -len(g[1]))
+    arrays = [a for _, grp in groups for a in grp]
+    assert len(arrays) == sum(4 ** L for L in range(8)) and len({tuple(a) for a in arrays}) == len(arrays)
+    exprs = [f"map (fun b => hz (map obs b)) (batches {SMALL_BATCH} {len(grp)} ({g}))" for g, grp in groups]
     model = C.coq_eval(IMPORTS, exprs, preamble=HASH_PREAMBLE + SMALL_OBS, tmpdir=ctx.tmp / "fn_small", shard=1, jobs=4)
-    pos = 0
     suspects = []
-    for (g, n), mh in zip(groups, model):
-        grp = arrays[pos:pos + n]
+    pos = 0
+    for (g, grp), mh in zip(groups, model):
+        n = len(grp)
         pos += n
         assert len(mh) == (n + SMALL_BATCH - 1) // SMALL_BATCH
         for k, mhash in enumerate(mh):
             batch = grp[k * SMALL_BATCH:(k + 1) * SMALL_BATCH]
-            results = [small_impl(a) for a in batch]
+            # one alarm per batch of 64 arrays instead of one per call (12 calls per array); if it ever fires
+            # (a mutated encoder that hangs) the batch is redone with the per-call limits so that the hanging
+            # call is reported as a "timeout" result
+            try:
+                BATCH_GUARD[0] = True
+                try:
+                    with G.time_limit(60):
+                        results = [small_impl(a) for a in batch]
+                finally:
+                    BATCH_GUARD[0] = False
+            except G.Timeout:
+                results = [small_impl(a) for a in batch]
             for a, res in zip(batch, results):
                 case = {"fn": "rlencode/index", "array": a}
                 nruns = sum(1 for i in range(len(a)) if i == 0 or a[i] != a[i - 1])
@@ -353,7 +384,7 @@ def gen_recipes(ctx):
     R.append([dict(E, out="a.cool", widths=[[7]], chunks=[[[0, 0, 4]]])])
     R.append([dict(E, out="a.cool", symm=False, chunks=[[[i, j, 1 + i + j] for i in range(4) for j in range(4)]])])
     # --- singles
-    for _ in range(30 * mul):
+    for _ in range(24 * mul):
         R.append([G.gen_create(rng, "a.cool")])
     for _ in range(10 * mul):
         R.append([G.gen_create(rng, "a.cool", group=rng.choice(["x", "x/y", "resolutions/5"]), big=True)])
@@ -369,7 +400,11 @@ def gen_recipes(ctx):
                 for _ in range(1 * mul):
                     R.append([G.gen_create_ensure_sorted(rng, "es.cool", how, api, symm=symm)])
     # --- interplay of documented options: the full boolean grid of the validation switches per producer
-    R += G.gen_option_grid(rng)
+    R += G.gen_option_grid(rng, thorough)
+    # --- every contact binner / loader exported by cooler.create (HDF5Aggregator incl. `cload hiclib`, TabixAggregator,
+    #     ArrayLoader, sanitize_records+aggregate_records and sanitize_pixels pipelines into create_from_unordered,
+    #     create.append, rename_chroms); PairixAggregator needs pypairix, which is not installed
+    R += G.gen_binners(rng, thorough)
     # --- invalid input: single out-of-range ids; refusal expected, never an invalid file
     R += G.gen_invalid_grid(rng, thorough)
     # --- producer options with valid input (each must leave a valid collection)
@@ -415,7 +450,7 @@ def gen_recipes(ctx):
         s1 = G.retype(rng, G.gen_create(rng, "x.cool", widths=widths, symm=symm, kind="frame", shape="sparse"), kind)
         s2 = G.retype(rng, G.gen_create(rng, "y.cool", widths=widths, symm=symm, kind=rng.choice(["ordered", "unordered"]), shape="sparse"), kind)
         steps = [s1, s2, {"op": "merge", "out": "m.cool", "group": "", "inputs": [["x.cool", ""], ["y.cool", ""]], "mergebuf": rng.choice([1, 3, 100])}]
-        if wide:
+        if wide and (thorough or ki % 2 == 0 or kind.startswith("float")):
             steps.append({"op": "coarsen", "out": "c.cool", "group": "", "in": ["m.cool", ""], "factor": 2, "chunksize": rng.choice([1, 3, 100])})
             steps.append({"op": "zoomify", "out": "z.mcool", "inputs": [["m.cool", ""]], "resolutions": [b, 2 * b, 4 * b],
                           "base_resolutions": [b], "chunksize": rng.choice([2, 100])})
@@ -444,9 +479,9 @@ def gen_recipes(ctx):
         s5 = {"op": "zoomify", "out": "z.mcool", "inputs": [["x.cool", ""]], "resolutions": [b, 2 * b, 4 * b], "base_resolutions": [b],
               "chunksize": rng.choice([2, 100]), "opts": {"columns": ["count", "w"]}}
         R.append([s1, s2, s3, s4, s5])
-    for _ in range(10 * mul):
+    for _ in range(7 * mul):
         R.append([G.gen_load(rng, "l.cool")])
-    for _ in range(6 * mul):
+    for _ in range(3 * mul):
         R.append([G.gen_cload(rng, "p.cool")])
     for _ in range(8 * mul):
         widths = G.rand_widths(rng)
@@ -459,7 +494,7 @@ def gen_recipes(ctx):
             cells[name] = G.rand_records(rng, sorted(G.rand_cells(rng, n, symm)))
         R.append([{"op": "scool", "out": "s.scool", "widths": widths, "symm": symm, "cells": cells}])
     # --- merges
-    for _ in range(18 * mul):
+    for _ in range(15 * mul):
         widths = G.rand_widths(rng)
         symm = rng.random() < 0.7
         k = rng.randint(2, 3)
@@ -468,14 +503,14 @@ def gen_recipes(ctx):
                       "mergebuf": rng.choice([1, 2, 3, 5, 1000])})
         R.append(steps)
     # --- coarsen
-    for _ in range(22 * mul):
+    for _ in range(18 * mul):
         widths = G.rand_widths(rng, maxbins=8)
         st = G.gen_create(rng, "b.cool", widths=widths, kind=rng.choice(["frame", "ordered"]))
         same = rng.random() < 0.3
         R.append([st, {"op": "coarsen", "out": "b.cool" if same else "c.cool", "group": "k" if same else "", "in": ["b.cool", ""],
                        "factor": rng.choice([2, 2, 3, 5]), "chunksize": rng.choice([1, 2, 3, 7, 1000])}])
     # --- zoomify
-    for _ in range(10 * mul):
+    for _ in range(8 * mul):
         widths = G.rand_widths(rng, fixed=True, maxbins=9)
         b = fixed_size(widths) or 1
         st = G.gen_create(rng, "b.cool", widths=widths, kind="frame")
@@ -483,7 +518,7 @@ def gen_recipes(ctx):
         R.append([st, {"op": "zoomify", "out": "z.mcool", "inputs": [["b.cool", ""]], "resolutions": [b] + res,
                        "base_resolutions": [b], "chunksize": rng.choice([1, 2, 5, 1000])}])
     # --- histories of length 3..4 and several collections in one file
-    for _ in range(15 * mul):
+    for _ in range(12 * mul):
         widths = G.rand_widths(rng, fixed=True, maxbins=8)
         b = fixed_size(widths) or 1
         symm = rng.random() < 0.7
@@ -573,6 +608,11 @@ def create_model_expr(step):
     """create_chunked (prepare_pixels + the resize/write loop of write_pixels + indexes + nnz/sum) on the
     chunk list a single create step hands to create(): frame/dict inputs are one chunk sorted by
     create_cooler, an ordered chunk list is passed as it is (empty chunks and no chunk included)"""
+    if step["op"] == "binner":
+        # contact binners: whatever the chunking, create() must store the counting model of the contacts
+        chroms = [ci for ci, ws in enumerate(step["widths"]) for _ in ws]
+        lit = C.lst([C.lst([C.tup(C.tup(C.z(a), C.z(b_)), C.z(v)) for a, b_, v in G.binner_expected(step)])])
+        return f"create_chunked {C.z(len(step['widths']))} {C.zl(chroms)} {lit} true"
     if step["op"] != "create" or step["input"] not in ("frame", "dict", "ordered"):
         return None
     chunks = step["chunks"]
@@ -608,7 +648,8 @@ def check_recipe(ctx, recipe, pending, tag, created=None):
     os.makedirs(d, exist_ok=True)
     case = {"fn": "recipe", "steps": recipe}
     outcome, files = G.run_recipe(d, recipe, limit=25)
-    kinds = "+".join(st["op"] + (":" + st["input"] if st["op"] == "create" else "") for st in recipe)
+    kinds = "+".join(st["op"] + (":" + st["input"] if st["op"] == "create" else ":" + st["kind"] if st["op"] == "binner" else "")
+                     for st in recipe)
     if outcome == "timeout":
         ctx.extra["recipe_timeouts"] = ctx.extra.get("recipe_timeouts", 0) + 1
     refuse = any(st.get("expect") == "refuse" for st in recipe)
